@@ -38,11 +38,12 @@ func builtinMathAtan(call FunctionCall) Value {
 }
 
 func builtinMathAtan2(call FunctionCall) Value {
+	// 15.8.2: ToNumber is applied to every argument, left to right, first.
 	y := call.Argument(0).float64()
+	x := call.Argument(1).float64()
 	if math.IsNaN(y) {
 		return NaNValue()
 	}
-	x := call.Argument(1).float64()
 	if math.IsNaN(x) {
 		return NaNValue()
 	}
@@ -128,16 +129,16 @@ func builtinMathMax(call FunctionCall) Value {
 	case 1:
 		return float64Value(call.ArgumentList[0].float64())
 	}
+	// ToNumber is applied to every argument, in order, also after a NaN.
 	result := call.ArgumentList[0].float64()
-	if math.IsNaN(result) {
-		return NaNValue()
-	}
+	nan := math.IsNaN(result)
 	for _, value := range call.ArgumentList[1:] {
 		value := value.float64()
-		if math.IsNaN(value) {
-			return NaNValue()
-		}
+		nan = nan || math.IsNaN(value)
 		result = math.Max(result, value)
+	}
+	if nan {
+		return NaNValue()
 	}
 	return float64Value(result)
 }
@@ -149,16 +150,16 @@ func builtinMathMin(call FunctionCall) Value {
 	case 1:
 		return float64Value(call.ArgumentList[0].float64())
 	}
+	// ToNumber is applied to every argument, in order, also after a NaN.
 	result := call.ArgumentList[0].float64()
-	if math.IsNaN(result) {
-		return NaNValue()
-	}
+	nan := math.IsNaN(result)
 	for _, value := range call.ArgumentList[1:] {
 		value := value.float64()
-		if math.IsNaN(value) {
-			return NaNValue()
-		}
+		nan = nan || math.IsNaN(value)
 		result = math.Min(result, value)
+	}
+	if nan {
+		return NaNValue()
 	}
 	return float64Value(result)
 }
